@@ -971,8 +971,8 @@ impl CxxCodeBodyTranslator {
                 }
                 ConstantValue::Integer(v) => v.to_string(),
                 ConstantValue::Float(v) => format!("{v:e}"),
-                ConstantValue::CString(v) => format!("{v:?}"), // TODO: escape per C spec)
-                ConstantValue::QString(v) => format!("QStringLiteral({v:?})"),
+                ConstantValue::CString(v) => format_string_literal(v),
+                ConstantValue::QString(v) => format!("QStringLiteral({})", format_string_literal(v)),
                 ConstantValue::NullPointer => "nullptr".to_owned(),
                 ConstantValue::EmptyList => "{}".to_owned(),
             },
@@ -982,6 +982,29 @@ impl CxxCodeBodyTranslator {
             Operand::Void(_) => "void()".to_owned(),
         }
     }
+}
+
+/// Formats the given string as a C++ string literal.
+///
+/// This is basically the Rust `{:?}` format, but the Rust-specific escape sequences are
+/// replaced with the C++ ones.
+fn format_string_literal(s: &str) -> String {
+    let mut out = String::with_capacity(s.len() + 2);
+    out.push('"');
+    for c in s.chars() {
+        match c {
+            '\'' => out.push(c),
+            '\0'..='\x1f' | '\x7f' if !matches!(c, '\t' | '\n' | '\r') => {
+                // octal escape sequence is limited to 3 digits, unlike \x
+                out.push_str(&format!("\\{:03o}", c as u32));
+            }
+            _ if c.escape_debug().len() == 1 || c.is_ascii() => out.extend(c.escape_debug()),
+            _ if (c as u32) < 0x10000 => out.push_str(&format!("\\u{:04x}", c as u32)),
+            _ => out.push_str(&format!("\\U{:08x}", c as u32)),
+        }
+    }
+    out.push('"');
+    out
 }
 
 fn member_access_op(a: &tir::Operand) -> &'static str {
